@@ -428,6 +428,23 @@ func (fi *FnInfo) nonNil(v ssa.Value, b *ssa.BasicBlock, depth int) bool {
 // PathAvoiding searches a path from function entry to target that does not execute
 // any instruction satisfying through. It returns the block path (witness) or nil.
 func (fi *FnInfo) PathAvoiding(target ssa.Instruction, through func(ssa.Instruction) bool) []int {
+	return fi.PathAvoidingX(target, through, nil)
+}
+
+// PathAvoidingX additionally treats crossing an if-edge whose fact satisfies edgePred as
+// "passing through" (paths may not cross such edges).
+func (fi *FnInfo) PathAvoidingX(target ssa.Instruction, through func(ssa.Instruction) bool, edgePred func(Fact) bool) []int {
+	blockedEdge := map[[2]int]bool{} // (block index, succ index)
+	if edgePred != nil {
+		for _, f := range fi.facts {
+			if edgePred(f) {
+				blockedEdge[[2]int{f.If.Block().Index, f.Succ}] = true
+			}
+		}
+	}
+	if through == nil {
+		through = func(ssa.Instruction) bool { return false }
+	}
 	blockedAt := func(b *ssa.BasicBlock) int {
 		for i, in := range b.Instrs {
 			if through(in) {
@@ -470,7 +487,10 @@ func (fi *FnInfo) PathAvoiding(target ssa.Instruction, through func(ssa.Instruct
 		if bl >= 0 {
 			continue
 		}
-		for _, s := range n.b.Succs {
+		for si, s := range n.b.Succs {
+			if blockedEdge[[2]int{n.b.Index, si}] {
+				continue
+			}
 			if !seen[s.Index] {
 				seen[s.Index] = true
 				queue = append(queue, &node{b: s, prev: n})
